@@ -192,7 +192,10 @@ func (s *seat) setRev(rev, mt int) (string, error) {
 // denyFiles makes the page ("page") or every .vuego file ("all") of p on fsys fail to open
 // and to stat with err; err == nil makes them accessible again.
 func denyFiles(fsys interface{ FailOpen(string, error) }, p cat.Program, deny string, err error) {
-	for f := range p.Files {
+	for f, src := range p.Files {
+		if src == overlayBase || src == overlayLocal {
+			continue // created / deleted overlay files are never made unreadable
+		}
 		if strings.HasSuffix(f, ".vuego") && (deny == "all" || (deny == "page" && f == "page.vuego")) {
 			fsys.FailOpen(f, err)
 		}
